@@ -477,7 +477,7 @@ func search(t *testing.T, c *Check, tier, out string) {
 	progress := make(chan struct{}, 1)
 	var curSeed uint64
 	go func() {
-		lim := time.Duration(envInt("VERIF_WATCHDOG_MS", 120000)) * time.Millisecond
+		lim := time.Duration(envInt("VERIF_WATCHDOG_MS", 600000)) * time.Millisecond
 		for {
 			select {
 			case <-progress:
